@@ -17,6 +17,8 @@ def one(sd):
     tmp = tempfile.mkdtemp(prefix="seedrepo-%s-" % name)
     try:
         subprocess.run("git -C /repo archive HEAD | tar -x -C %s" % tmp, shell=True, check=True)
+        if os.path.exists("/repo/Cargo.lock"):          # untracked in this repository, but part of the working tree the checks see
+            shutil.copy("/repo/Cargo.lock", os.path.join(tmp, "Cargo.lock"))
         r = subprocess.run(["git", "apply", os.path.join(sd, "patch.diff")], cwd=tmp, capture_output=True, text=True)
         if r.returncode != 0:
             r = subprocess.run(["patch", "-p1", "-i", os.path.join(sd, "patch.diff")], cwd=tmp, capture_output=True, text=True)
